@@ -180,6 +180,8 @@ class Ref:
         self.resolved[nid] = used
         if nid == self.prog['input']:
             kwargs.update(self.input_kwargs)
+        if node.get('dep_default'):
+            kwargs['dd'] = ('DD', nid)      # build_node(dependencies_default=dict(dd=...)): an extra keyword
         if node.get('start_of') and self.env.get(nid) is not None and (node.get('plan') or {}).get('use_ad', True):
             kwargs['additional_data'] = self.env[nid]
         if causes:
@@ -321,6 +323,10 @@ class Ref:
             return self._fail(e, nid, a, name)
 
     def _default(self, e, nid, kwargs):
+        if self.nodes[nid].get('dep_default'):
+            # dependencies_default of build_node() is added by the generated process wrapper: get_default is called
+            # by the engine with the arguments the engine itself supplies
+            kwargs = {k: v for k, v in kwargs.items() if k != 'dd'}
         e.defaulted = True
         self.defaults.append((nid, kwargs))
         out = ('ok', rt.default_value(self.nodes[nid], kwargs))
